@@ -1,7 +1,9 @@
 --------------------------- MODULE Session_Trace ---------------------------
 (* One player session per run.  Lines (per session, in log order):
      {"ev":"reset","modern":bool}
-     {"ev":"c","what":"hs"|"start"|"encreq"|"encresp"|"success"|"ack"|"cfgfin"|"cfgack"|"join"|"closed","name":".."}
+     {"ev":"c","what":"hs"|"start"|"encreq"|"encresp"|"success"|"ack"|"cfgfin"|"cfgack"|"join"|
+                      "startcfg"|"cfgenter"|"closed","name":".."}
+     {"ev":"end"}     the harness closed the client and waited for the proxy to drop the backend connections
      {"ev":"b","conn":"b1".., "what":"accept"|"hs"|"start"|"success"|"ack"|"cfgfin"|"cfgack"|"join"|"closed","name":".."}
    Packets that are none of these (keep-alives, plugin messages, chunks ...) are not logged. *)
 EXTENDS Session, TraceLib
@@ -9,7 +11,7 @@ EXTENDS Session, TraceLib
 tv == <<svars, l>>
 
 TInit == CursorInit /\ SInit(FALSE)
-TReset == IsEv("reset") /\ cph' = "init" /\ modern' = Rec.modern /\ name' = "" /\ joins' = 0
+TReset == IsEv("reset") /\ cph' = "init" /\ modern' = Rec.modern /\ name' = "" /\ joins' = 0 /\ cnt' = Zero
           /\ bph' = [b \in Backends |-> "none"]
 
 TC == /\ IsEv("c")
@@ -23,6 +25,8 @@ TC == /\ IsEv("c")
            [] w = "cfgfin" -> CRecvCfgFinish
            [] w = "cfgack" -> CSendCfgAck
            [] w = "join" -> CRecvJoin
+           [] w = "startcfg" -> CRecvStartCfg
+           [] w = "cfgenter" -> CSendCfgEnter
            [] w = "closed" -> CClosed
 
 TB == /\ IsEv("b") /\ Rec.conn \in Backends
@@ -37,6 +41,9 @@ TB == /\ IsEv("b") /\ Rec.conn \in Backends
            [] w = "join" -> BSendJoin(b)
            [] w = "closed" -> BClosed(b)
 
-TNext == TReset \/ TC \/ TB
+\* end of a session: the client was closed by the harness and the proxy had time to settle
+TEnd == IsEv("end") /\ cph = "closed" /\ AllBackendsClosed /\ UNCHANGED svars
+
+TNext == TReset \/ TC \/ TB \/ TEnd
 TSpec == TInit /\ [][TNext]_tv
 =============================================================================
